@@ -436,8 +436,11 @@ Definition S_DD : bytes := [DASH; DASH].
 Definition S_DD_CRLF : bytes := [DASH; DASH; CR; LF].
 
 Definition flags_any (f : Flags) : bool := f8 f || fline f || fhdr f.
-(** nr & nr_match, nr_match = (smtpext & esmtp_8bitmime) ? 0x6 : 0x7 *)
-Definition nr_match (ext8 : bool) (f : Flags) : bool := (negb ext8 && f8 f) || fline f || fhdr f.
+(** nr & nr_match with nr_match = (smtpext & esmtp_8bitmime) ? NR_MATCH_8BITMIME : NR_MATCH_7BIT, both masks from the C source *)
+Definition mask_hits (mask : nat) (f : Flags) : bool :=
+  negb (N.eqb (N.land (N.of_nat (flags_val f)) (N.of_nat mask)) 0).
+Definition nr_match (ext8 : bool) (f : Flags) : bool :=
+  mask_hits (if ext8 then NR_MATCH_8BITMIME else NR_MATCH_7BIT) f.
 
 Definition lift {A} (x : Cres (A * St)) : Cres (Run A) := do r <- x; let '(a, st) := r in Ok (Done a st).
 Definition liftS (x : Cres St) : Cres (Run unit) := do st <- x; Ok (Done tt st).
